@@ -1,0 +1,8 @@
+//go:build verif
+
+// Contracts for package jt808, read by /verif/govc. Comment-only; never compiled into the library.
+package jt808
+
+// A message handed to a body parser was produced by NewJTMessage (+ Decode): the three objects exist.
+//@ valid *JTMessage m: m != nil && m.Header != nil && m.Header.Property != nil
+//@ valid *Header h: h != nil && h.Property != nil
